@@ -349,9 +349,7 @@ func (fe *FuncEnc) run(extra []*Clause) {
 			name = fmt.Sprintf("arg%d", i)
 		}
 		nonnil := !fe.nilableParam(p.Name())
-		if i == 0 && fn.Signature.Recv() != nil {
-			nonnil = true
-		}
+		// (a receiver declared `nilable` is not assumed non-nil either: GetClaim is called on nil sessions)
 		// in sweep mode only receivers are assumed non-nil... and parameters (checked at call sites in the cone)
 		t := declIn("p", name, p.Type(), nonnil)
 		fr.vals[p] = t
